@@ -37,7 +37,8 @@ def prepare(chk, props_module, need_hook=True):
         chk.proof['broken'].append({'stage': 'translator', 'errors': [str(ex)], 'package': 'XvcPipeline', 'theorems': []})
         ctx.extract = None
     ctx.model = chk.lean('XvcPipeline', props_module, exe='schedmodel',
-                         extra_modules=['XvcPipeline.Sched', 'XvcPipeline.Inv'])
+                         extra_modules=['XvcPipeline.Sched', 'XvcPipeline.Graph', 'XvcPipeline.Inv', 'XvcPipeline.Term',
+                                        'XvcPipeline.Topo', 'XvcPipeline.Progress', 'XvcPipeline.Relay'])
     if not (ctx.model and os.path.exists(ctx.model)):
         ctx.model = None
         chk.notes.append('model driver did not build; hook traces cannot be validated')
@@ -584,6 +585,7 @@ def run_family(ctx, stream, cases, own, hook=False, timeout=20, workers=8, valid
         list(ex.map(build, distinct.values()))
         for case, obs, error in ex.map(work, cases):
             results.append((case, obs, error))
+    chk.extra['programs'] = chk.extra.get('programs', 0) + len(distinct)
     first = {}
     to_validate = []
     for case, obs, error in results:
